@@ -1091,3 +1091,57 @@ pub fn shrink(case: &ObsCase, prop: Prop) -> ObsCase {
     }
     cur
 }
+
+/// Bounded-exhaustive histories: every sequence of at most `max_len` operations from a fixed
+/// alphabet (two slots per handle kind), for both starts.
+pub fn enumerate(max_len: usize, flavour: Fl, handles: bool) -> impl Iterator<Item = ObsCase> + Send {
+    let mut alpha: Vec<ObsOp> = vec![
+        ObsOp::Write { owner: 0, wr: Wr::Set(1, 0) },
+        ObsOp::Write { owner: 0, wr: Wr::SetIfNotEq(1, 0) },
+        ObsOp::Write { owner: 0, wr: Wr::SetIfHashNotEq(1, 1) },
+        ObsOp::Write { owner: 0, wr: Wr::Update(2) },
+        ObsOp::Write { owner: 0, wr: Wr::UpdateIf(1, false) },
+        ObsOp::Subscribe(0),
+        ObsOp::SubscribeReset(0),
+        ObsOp::Poll { sub: 0, via: Via::Stream },
+        ObsOp::Poll { sub: 200, via: Via::Next },
+        ObsOp::NextNow(0),
+        ObsOp::SubGet(0),
+        ObsOp::SubClone(0),
+        ObsOp::SubReset(200),
+        ObsOp::DropOwner(0),
+    ];
+    if handles {
+        alpha.extend([
+            ObsOp::CloneOwner(0),
+            ObsOp::DropOwner(200),
+            ObsOp::Downgrade(0),
+            ObsOp::Upgrade(0),
+            ObsOp::IntoShared,
+            ObsOp::DropSub(0),
+            ObsOp::SubCloneReset(0),
+            ObsOp::DropWeak(0),
+        ]);
+    }
+    let a = alpha.len() as u64;
+    (0..=max_len).flat_map(move |len| {
+        let alpha = alpha.clone();
+        let total = a.pow(len as u32);
+        (0..total).flat_map(move |mut n| {
+            let mut ops = Vec::with_capacity(len);
+            for _ in 0..len {
+                ops.push(alpha[(n % a) as usize]);
+                n /= a;
+            }
+            [false, true].into_iter().map(move |start_shared| ObsCase {
+                flavour,
+                start_shared,
+                init: (0, 0),
+                guards: false,
+                ops: ops.clone(),
+                strict: false,
+                shared_waker: false,
+            })
+        })
+    })
+}
